@@ -962,6 +962,8 @@ AUTO_PROBES = [
     ('', 'int x[] = { [5] = 50, [1] = 10, 20 };', 24, None),
     # copies of aggregates aligned to 16 and more move every byte
     ('struct V33 { _Alignas(16) long a; long b; long c; long d; };', 'struct V33 s = { 1, 2, 3, 4 }; struct V33 x = s;', 32, None),
+    # an automatic compound literal with empty braces is zero
+    ('struct E50 { int a[6]; };', 'struct E50 *q = &(struct E50){}; struct E50 x = *q;', 24, None),
     # the tail of a wide character array after a shorter string literal is zero
     ('', 'unsigned short x[8] = u"ab";', 16, None),
     ('', 'int x[5] = L"a";', 20, None),
